@@ -20,6 +20,8 @@ def classify_orderings(spec, out):
         kinds = [a[0] for a in ln["chain"]]
         for a in kinds:
             out.count("adapter_" + a)
+        if any(a[0] == "dfix" and len(a) > 2 and a[2] == "user" for a in ln["chain"]):
+            out.count("links_with_user_defined_delay_adapter")
         for i, a in enumerate(kinds):
             if a in ("dfix", "dpull", "dpush"):
                 if any(b in gen_coupling.PUSH for b in kinds[i + 1:]):
@@ -103,7 +105,7 @@ class C01(Property):
     def coverage_gaps(self, counters, tier):
         need = ["updates_checked", "pulls_served", "delay_upstream_of_push_based", "delay_downstream_of_push_based", "links_with_several_delays",
                 "delay_resolved_cycles_completed", "compositions_with_pull_based_components", "compositions_with_shipped_components", "compositions_with_sparse_publishers", "compositions_with_fanout_below_adapter", "compositions_with_look_ahead_links",
-                "refused_publications_in_runs"] + [
+                "refused_publications_in_runs", "links_with_user_defined_delay_adapter"] + [
                     "adapter_" + a for a in ("scale", "probe", "lin", "next", "prev", "step", "avg", "sum", "dfix", "dpull", "dpush")]
         gaps = [f"{k} never observed" for k in need if not counters.get(k)]
         if counters.get("aborted_runs", 0) > 0.05 * max(1, counters.get("compositions", 0)):
